@@ -104,6 +104,12 @@ prop("C12", stems=["Sim", "SO3Mrp"], props=["Props/C12.v"], falsify="falsify_C12
      technique="Coq component theorems on the regenerated sensor models + closed-loop simulation of the real code (exploration)",
      explanation="Convergence is explored by simulation, not proved: component theorems (sensor models rotate with the true attitude and have the configured magnitudes) are kernel-checked on the regenerated model; the closed loop of the real simulator + estimator is run noise-free from random initial conditions and its error envelopes are checked.")
 
+prop("C17", stems=["Rdd2", "Quadrotor"], props=["Props/C17.v"], falsify="falsify_C17", level="other", budget={"quick": 240, "thorough": 3600},
+     level_text="Convergence of the closed loop (saturating cascade around a nonlinear plant, sampled at 100 Hz) from a box of initial conditions is NOT something this proof technique can establish here. The check combines (a) kernel-checked interface theorems on the regenerated allocator and plant: the moment part of the allocation inverts the X-quad mixer on the saturated moment and carries no net thrust, the thrust part is uniform and equals the demand inside [0, 4 F_max], and rotor thrusts satisfying those mixer relations produce on the plant J wdot = (sin a Mx, cos a My, Mz) -- same axes and signs, positive scale (with C13/C15/C16's theorems on each block); and (b) exploration of the real closed loop: position_control+attitude_control and se23_error+se23_position_control+so3_attitude_control, each followed by attitude_rate_control and f_alloc, around quadrotor.derive_model() with its default parameters and the gains of scripts/rdd2_sim.py (read from that file), true state fed back, RK4, 15 simulated seconds from random offsets up to 1.5 m per axis, tilts up to 50 deg, speeds and rates up to 1, random commanded headings (Mellinger cascade), checking position error < 5 cm, tilt < 0.02 rad, rates and speed < 0.05, motor commands within sqrt(F_max/CT), no NaN; plus allocator->plant wrench check on unsaturated demands.",
+     level_note=GEN_NOTE + "The closed-loop part is a bounded random exploration (4 runs quick, ~60 thorough), not a proof. Not covered: the estimator in the loop (true state is fed back), stick inputs/leash (C15), headings other than 0 for the log-linear cascade.",
+     technique="Coq interface theorems on the regenerated allocator and plant + closed-loop simulation of the real code (exploration)",
+     explanation="Convergence is explored by simulation, not proved: allocator/plant interface theorems are kernel-checked on the regenerated model; both shipped cascades are closed around the real plant function from random initial conditions and position/attitude/motor-limit envelopes are checked.")
+
 prop("C16", stems=["Quadrotor"], props=["Props/C16.v"], falsify="falsify_C16",
      level_text="Kernel-checked theorems over the regenerated real-number model of quadrotor.derive_model(): q.qdot=0, quaternion and position kinematics, hover equilibrium, free-fall accelerometer, rotor-sum wrench (Euler and Newton equations), motor first-order law, translation and yaw equivariance, for ALL states, inputs and parameter vectors (parameters are symbolic). Not proved: the exponential closed-form motor response (only the ODE right-hand side), drag-on branch of the force sum.",
      level_note=GEN_NOTE + "Numeric search on the real functions (harness/falsify_C16.py) supports replay generation only.",
